@@ -29,6 +29,12 @@ case_st = st.deferred(lambda: _case())
 def _case(draw):
     rf = draw(R.rule_file(max_rules=8, depth=2))
     txns = draw(R.txn_list(rf))
+    if draw(st.integers(0, 2)) == 0:
+        # a statement that pads its description column, and a rule that depends on the run of blanks as written
+        m = draw(st.sampled_from([['match', 'regex', None, r'\S\s{2,}\S'], ['match', 'contains', None, 'WIRE   FEE'], ['not', ['match', 'regex', None, r'^\S+( \S+)*$']]]))
+        rf = dict(rf, rules=[{'name': 'Padded', 'match': m, 'category': 'Bills & Utilities', 'subcategory': 'Padded', 'merchant': None, 'priority': None, 'tags': ['padded'], 'lets': [],
+                              'fields': []}] + rf['rules'])
+        txns = txns + [R.nonzero(dict(txns[0], description=draw(st.sampled_from(['WIRE   FEE 0042', 'ACME  CORP   PAYMENT', 'wire   fee']))))]
     n = len(rf['rules'])
     return {'kind': 'rules', 'rf': rf, 'txns': txns, 'rows': draw(lang.rows_opt),
             'del': draw(st.lists(st.booleans(), min_size=n, max_size=n)),
